@@ -9,6 +9,7 @@ def run(tier, seed, t0):
         PROP, tier, seed, t0,
         families=[("listeners", 600, 10000), ("listener_cross", 200, 3000), ("listener_split", 150, 3000),
                   ("mixed", 150, 2000)],
+        own_kinds=('listener',),
         mc_jobs=[("MC_Conn_listeners_q.cfg", None, "quick"), ("MC_Conn_listeners.cfg", None, "thorough")],
         rule="1-2 channels with confirm mode; seeded interleavings of: registering confirm / return listeners and the "
              "connection-blocked listener, replacing them, dropping their receivers, publishes (mandatory or not), server "
